@@ -1002,12 +1002,21 @@ class Emitter:
             return f'({s} == {pat[1]})', []
         if k == 'p_or':
             conds = []
+            alts = []
             for a in pat[1]:
                 c, b = self.pat_test(a, s)
-                if b:
-                    raise Unsupported(f'line {pat[-1]}: bindings in or-pattern')
                 conds.append(c)
-            return '(' + ' or '.join(conds) + ')', []
+                alts.append(dict(x.split(' = ', 1) for x in b))
+            names = set(alts[0])
+            if any(set(a) != names for a in alts):
+                raise Unsupported(f'line {pat[-1]}: or-pattern alternatives bind different names')
+            binds = []
+            for nm in sorted(names):
+                expr = alts[-1][nm]
+                for c, a in reversed(list(zip(conds[:-1], alts[:-1]))):
+                    expr = f'({a[nm]} if {c} else {expr})'
+                binds.append(f'{nm} = {expr}')
+            return '(' + ' or '.join(f'({c})' for c in conds) + ')', binds
         if k == 'p_path':
             path = pat[1]
             if path == ['None']:
